@@ -1104,8 +1104,14 @@ class Explorer(object):
                 status = "abort"
                 exc = e
             except Exception as e:      # noqa: real code raised on this path
-                status = "exception"
-                exc = e
+                msg = str(e)
+                if isinstance(e, TypeError) and ("ufunc" in msg and ("not supported for the input types" in msg or "does not support argument" in msg)):
+                    # a compiled numpy/scipy ufunc met a symbolic value: the path left the symbolic domain
+                    status = "abort"
+                    exc = Abort("compiled ufunc applied to a symbolic value: %s" % msg[:120], kind="c-boundary")
+                else:
+                    status = "exception"
+                    exc = e
             finally:
                 _CTX = prev
             pr = PathResult(len(self.paths), prefix, status, out, c, exc)
